@@ -25,6 +25,7 @@ class SuiteSparseSolver:
         self.factorize = True
         self.new_A = False  # does not need to handle new A in suitesparse solvers
         self.use_linsolve = False
+        self._pattern = None  # sparsity pattern for which `self.F` is valid
 
     def clear(self):
         """
@@ -36,6 +37,7 @@ class SuiteSparseSolver:
         self.N = None   # numeric factorization
         self.factorize = True
         self.use_linsolve = False
+        self._pattern = None
 
     def _symbolic(self, A):
         """
@@ -117,8 +119,15 @@ class SuiteSparseSolver:
         self.A = A
         self.b = b
 
-        if self.factorize is True:
+        # A cached symbolic factorization is only valid for the same sparsity
+        # pattern. KLU does not detect a mismatch (it may return wrong results
+        # or crash), so redo the symbolic factorization if the pattern changed.
+        ccs = A.CCS
+        pattern = (A.size, bytes(ccs[0]), bytes(ccs[1]))
+
+        if self.factorize is True or pattern != self._pattern:
             self.F = self._symbolic(self.A)
+            self._pattern = pattern
             self.factorize = False
 
         try:
